@@ -11,7 +11,7 @@ RULE = ("for each of 44 string enums (ruma-common, ruma-events, ruma-state-res):
         "spec lists, declared aliases, near-misses of each (case changes, prefix/suffix, one-"
         "character edits, surrounding space), wildcard prefixes with arbitrary suffixes, other "
         "enums' spellings, random Unicode and the empty string; each string is converted with "
-        "From<&str>, printed with AsRef/Display/to_string, (de)serialized with serde and "
+        "From<&str> and From<String>, printed with AsRef/Display/to_string, (de)serialized with serde and "
         "re-converted; all pairs of converted values are compared with == and cmp; for 23 enums "
         "the unit variants are also enumerated in the adapter and their printed forms compared "
         "with the spec table. evaluations = oracle judgements; distinct_nontrivial = distinct "
@@ -77,6 +77,8 @@ def judge_enum(ctx, name, spec, strings, tags, reply, cmd):
             rep.violation("serde_serialization_differs", key, {"enum": name, "input": s, "item": it}, replay)
         if it["de"].get("ok") != want or not it["de_eq_from"]:
             rep.violation("serde_deserialization_differs", key, {"enum": name, "input": s, "item": it}, replay)
+        if it.get("owned_as_str", it["as_str"]) != it["as_str"] or not it.get("owned_eq", True):
+            rep.violation("owned_string_conversion_differs", key, {"enum": name, "input": s, "item": it}, replay)
         if it["idem"] != it["as_str"] or not it["idem_eq"]:
             rep.violation("conversion_not_idempotent", key, {"enum": name, "input": s, "item": it}, replay)
         if s in listed:
